@@ -2,7 +2,7 @@
 import ast
 
 from engine.index import AnalysisError
-from engine.helpers import (resolver, facts_at, lit_cmp, describe_facts, unparse, walk_no_nested, returns, deref, reaching_def,
+from engine.helpers import (stmt_of, resolver, facts_at, lit_cmp, describe_facts, unparse, walk_no_nested, returns, deref, reaching_def,
                             body_only_aborts, is_abort_stmt)
 from engine.fold import EnumConst, Ref
 from engine import rx
@@ -341,9 +341,19 @@ def c07_4(ctx):
                                     and s2.slice.upper is not None and unparse(s2.slice.upper) == f'{m}.start()' and s2.slice.lower is not None:
                                 gap = True
                                 pos = unparse(s2.slice.lower)
+                                gap_expr = s2
+            order = init0 = True
             for n in walk_no_nested(lp):
                 if isinstance(n, ast.Assign) and pos is not None and unparse(n.targets[0]) == pos and unparse(n.value) == f'{m}.end()':
                     adv = True
+                    # the gap is measured from the end of the *previous* match: its slice is evaluated before the position moves
+                    gg = ctx.cfg(lex)
+                    order = order and gg.dominates(gg.node_of(stmt_of(lex, gap_expr)), gg.node_of(n))
+            if pos is not None:
+                inits = [n for n in walk_no_nested(lex.node) if isinstance(n, ast.Assign) and unparse(n.targets[0]) == pos and not any(x is n for x in ast.walk(lp))]
+                init0 = len(inits) == 1 and isinstance(inits[0].value, ast.Constant) and inits[0].value.value == 0 \
+                    and ctx.cfg(lex).dominates(ctx.cfg(lex).node_of(inits[0]), ctx.cfg(lex).node_of(lp))
+            gap = gap and order and init0
             for n in walk_no_nested(lex.node):
                 if isinstance(n, ast.If) and body_only_aborts(n.body) and not any(x is n for x in ast.walk(lp)):
                     for s2 in ast.walk(n.test):
@@ -532,6 +542,19 @@ RULES = [c07_1, c07_2, c07_3, c07_4, c07_5]
 _X = 'expression/__init__.py'
 _U = 'utilities.py'
 MUTANTS = [
+    V('c07-lexer-advance-before-gap', 'expression/__init__.py', '''        # anything between recognized parts other than whitespace is not part of a valid expression
+        skipped_text = s[scan_position:part_match.start()].strip()
+        if skipped_text != '':
+            raise SyntaxError(f'ERROR: {line_id} - invalid text in expression: {skipped_text}')
+        expression_parts.append(part_match.group(0))
+        scan_position = part_match.end()
+''', '''        expression_parts.append(part_match.group(0))
+        scan_position = part_match.end()
+        # anything between recognized parts other than whitespace is not part of a valid expression
+        skipped_text = s[scan_position:part_match.start()].strip()
+        if skipped_text != '':
+            raise SyntaxError(f'ERROR: {line_id} - invalid text in expression: {skipped_text}')
+''', 'C07.4'),
     V('c07-neg-loose', _X, "        tokens.pop(0)\n        node.left_child = _parse_e4(line_id, tokens)", "        tokens.pop(0)\n        node.left_child = _parse_e(line_id, tokens)", 'C07.1'),
     V('c07-neg-mul-level', _X, "        tokens.pop(0)\n        node.left_child = _parse_e4(line_id, tokens)", "        tokens.pop(0)\n        node.left_child = _parse_e3(line_id, tokens)", 'C07.1'),
     V('c07-plus-in-mult', _X, "[TokenType.T_MULT, TokenType.T_DIV, TokenType.T_MOD]:\n        node = tokens.pop(0)", "[TokenType.T_MULT, TokenType.T_DIV, TokenType.T_MOD, TokenType.T_PLUS]:\n        node = tokens.pop(0)", 'C07.1'),
